@@ -208,7 +208,8 @@ DCK == << D(<<>>),
           D(<< <<"p", F("0.3")>> >>),
           D(<< <<"accessible_cells", I(5)>>, <<"do_forks", B(FALSE)>> >>),
           D(<< <<"accessible_cells", F("5.0")>>, <<"do_forks", B(FALSE)>> >>),
-          D(<< <<"start_coord", L(<<I(0), I(1)>>)>>, <<"max_tree_depth", None>> >>) >>
+          D(<< <<"start_coord", L(<<I(0), I(1)>>)>>, <<"max_tree_depth", None>> >>),
+          D(<< <<"accessible_cells", I(0)>>, <<"max_tree_depth", F("0.0")>>, <<"do_forks", B(FALSE)>> >>) >>   \* falsy values
 C(a, b) == T(<<I(a), I(b)>>)
 DEK == << D(<<>>),
           D(<< <<"deadend_start", B(TRUE)>> >>),
@@ -225,7 +226,8 @@ DAF == << L(<<>>),
           L(<<Filter("path_length", <<I(4)>>, <<>>)>>),
           L(<<Filter("path_length", <<>>, << <<"min_length", I(3)>> >>)>>),
           L(<<Filter("path_length", <<I(3)>>, <<>>), Filter("cut_percentile_shortest", <<F("10.0")>>, <<>>)>>),
-          L(<<Filter("cut_percentile_shortest", <<F("10.0")>>, <<>>), Filter("path_length", <<I(3)>>, <<>>)>>) >>
+          L(<<Filter("cut_percentile_shortest", <<F("10.0")>>, <<>>), Filter("path_length", <<I(3)>>, <<>>)>>),
+          L(<<Filter("path_length", <<I(0)>>, << <<"min_length", None>> >>)>>) >>                                  \* falsy values
 Cut(q, n) == IF Full THEN q ELSE SubSeq(q, 1, n)
 Dom(f) == CASE f = "name" -> DNames [] f = "grid_n" -> DGrids [] f = "n_mazes" -> DCounts [] f = "seed" -> DSeeds
             [] f = "ctor" -> DGens [] f = "ck" -> Cut(DCK, 3) [] f = "ek" -> Cut(DEK, 5) [] f = "af" -> Cut(DAF, 4)
